@@ -38,6 +38,19 @@ CHECKS.update({
         technique="Lean 4 proof (insertion-sort invariants, folds) + differential correspondence + spec oracle"),
 })
 
+CHECKS.update({
+    "C03": dict(
+        category="proof",
+        text="Lean 4 theorems on the decision logic: later interpretation clauses override earlier ones per (auditor, result) (interp_last_wins, any clause list incl. the shorthand), verdict_iff, -S stops only on a foul (earlyExit_keeps_foul, every report stream), the error funnel keeps an audit foul / cleanup error / component error and exit 0 means clean. The real parser + collector loop are compared in-process with the model; the real binary is run on the mode x count-shape x -S matrix, overriding sequences, each failing command site, and under steered schedules of the shutdown cascade (pause points) — proof for the decision logic, partial for how the verdict travels through goroutines.",
+        note="Trusted: Lean kernel; the sequential funnel model (stageErr/finish) stands for the goroutine/channel plumbing, which is only exercised end-to-end (incl. the steered schedules); bash/true/false as commands.",
+        technique="Lean 4 proof of the decision logic + in-process differential correspondence + end-to-end matrix with schedule steering"),
+    "C06": dict(
+        category="proof",
+        text="Lean 4 character-level model of combineActs/combineStoryLines/validateStoryLine/compileV2 and an independently written denotation (columns, zipLong, denote); theorems columns_comb, comb_wf, combineStory_denotes, validate_iff/sound, compile_denotes, play_denotes for every storyline shape; real parser+compiler compared with the model and with the denotation on all small shapes and random larger configurations, flattened to the schedule they denote; the -p listing is parsed back.",
+        note="Trusted: Lean kernel; Go regexp for `edit` (an edit is an arbitrary function in the theorems, literal patterns in the correspondence); role/cast/tempo parsing outside the model.",
+        technique="Lean 4 proof (structural induction on storylines) + exhaustive small-shape and random differential correspondence + denotation oracle"),
+})
+
 NOT_APPLICABLE = [
     {"property_id": "C14", "reason": "data-race freedom is a property of memory accesses under the Go memory model; no executable Lean model compared on values can exhibit an unsynchronised access (DESIGN.md 5/C14)"},
 ]
@@ -94,7 +107,7 @@ def main():
         f.write("\n")
 
 
-HOOK_COMMITS = ["f54323b", "bfaa749", "1959c79"]
+HOOK_COMMITS = ["f54323b", "bfaa749", "1959c79", "eda03ea"]
 
 if __name__ == "__main__":
     main()
